@@ -1,6 +1,7 @@
 package props
 
 import (
+	"os"
 	"errors"
 	"fmt"
 	"regexp"
@@ -9,6 +10,7 @@ import (
 
 	z "github.com/Oudwins/zog"
 	"github.com/Oudwins/zog/parsers/zjson"
+	"github.com/Oudwins/zog/zenv"
 
 	"zogverif/internal/core"
 	"zogverif/internal/gen"
@@ -422,6 +424,42 @@ func c10Directed(c *core.Ctx) bool {
 			c.Violation("issue-paths|IssuePath-root", map[string]any{"schema": "{account: Struct{pass, confirm: String().Min(8, IssuePath(\"$root\"))}}", "keys": keysOf(m), "want": "$root"})
 			return false
 		}
+	}
+	// a map[string]string record produced inside a JSON execution (by a Preprocess function) is keyed by the json tags like the rest of
+	// that execution; environment variables are keyed by the env tag whatever other variables happen to be set
+	type shipTo struct {
+		Zip  string `json:"zip_code" zog:"zip"`
+		City string `json:"city_name"`
+	}
+	type parcel struct {
+		ShipTo shipTo `json:"ship_to"`
+	}
+	var pc parcel
+	m = z.Struct(z.Schema{"shipTo": z.Preprocess(func(d any, ctx z.Ctx) (map[string]string, error) { return map[string]string{"city_name": "x"}, nil }, z.Struct(z.Schema{"zip": z.String().Required(), "city": z.String().Min(3)}))}).
+		Parse(zjson.Decode(strings.NewReader(`{"ship_to":"12 Main St|x"}`)), &pc)
+	c.Eval(1)
+	if got := keysOf(m); got != "ship_to.city_name, ship_to.zip_code" {
+		c.Violation("issue-paths|typed-map-record-inside-a-json-execution", map[string]any{"schema": "{shipTo: Preprocess(fn returning map[string]string{city_name: x}, Struct{zip: Required, city: Min(3)})}; fields tagged `json:zip_code zog:zip`, `json:city_name`", "keys": got, "want": "ship_to.city_name, ship_to.zip_code"})
+		return false
+	}
+	type envCfg struct {
+		Name string `env:"ZZC10_NAME" zog:"ZZC10_ALT_NAME"`
+		DB   struct {
+			Port int `env:"ZZC10_PORT" zog:"ZZC10_ALT_PORT"`
+		} `env:"ZZC10_DB" zog:"ZZC10_ALT_DB"`
+	}
+	os.Setenv("ZZC10_ALT_NAME", "set under the other name")
+	os.Setenv("ZZC10_ALT_PORT", "80")
+	os.Setenv("ZZC10_ALT_DB", "x")
+	var ec envCfg
+	m = z.Struct(z.Schema{"name": z.String().Required(), "dB": z.Struct(z.Schema{"port": z.Int().Required()})}).Parse(zenv.NewDataProvider(), &ec)
+	os.Unsetenv("ZZC10_ALT_NAME")
+	os.Unsetenv("ZZC10_ALT_PORT")
+	os.Unsetenv("ZZC10_ALT_DB")
+	c.Eval(1)
+	if got := keysOf(m); got != "ZZC10_DB.ZZC10_PORT, ZZC10_NAME" || ec.Name != "" {
+		c.Violation("issue-paths|environment-keys", map[string]any{"destination_type": "Name `env:ZZC10_NAME zog:ZZC10_ALT_NAME`; DB{Port `env:ZZC10_PORT zog:ZZC10_ALT_PORT`} `env:ZZC10_DB zog:ZZC10_ALT_DB`", "environment": "only the ZZC10_ALT_* variables are set", "keys": got, "name": ec.Name, "want": "ZZC10_DB.ZZC10_PORT, ZZC10_NAME; nothing read"})
+		return false
 	}
 	// SanitizeMap / SanitizeList mirror the issue map: same keys, same number of entries in the same order, whatever the messages are
 	silent := z.WithIssueFormatter(func(e *z.ZogIssue, ctx z.Ctx) {
